@@ -289,16 +289,17 @@ theorem returns_exactly (pct : Bool) (st : Stmt) (order : Option OrderSpec)
             sortRows_perm o sel sorted hso, h⟩
 
 /-- The order of values used by comparisons and by ORDER BY is a strict total order with NULL
-first, then integers by value, then texts (code points); so is, key by key with `DESC` flipping a
+first, then integers by value, then texts (code points), then BLOBs (bytes); so is, key by key with `DESC` flipping a
 key, the order of rows (`rowBefore`: never both ways, transitive). -/
 theorem value_order :
     (∀ a, vLt a a = false) ∧ (∀ a b c, vLt a b = true → vLt b c = true → vLt a c = true) ∧
     (∀ a b, a ≠ b → vLt a b = true ∨ vLt b a = true) ∧
-    (∀ i s, vLt .null (.int i) = true ∧ vLt (.int i) (.text s) = true ∧ vLt .null (.text s) = true) ∧
+    (∀ i s b, vLt .null (.int i) = true ∧ vLt (.int i) (.text s) = true ∧ vLt .null (.text s) = true ∧
+      vLt (.text s) (.blob b) = true) ∧
     (∀ i j : Int, vLt (.int i) (.int j) = true ↔ i < j) ∧
     (∀ o r s, rowBefore o r s = some true → rowBefore o s r = some false) ∧
     (∀ o r s t, rowBefore o r s = some true → rowBefore o s t = some true → rowBefore o r t = some true) :=
-  ⟨vLt_irrefl, vLt_trans, vLt_total, fun _ _ => ⟨rfl, rfl, rfl⟩, fun i j => by simp [vLt],
+  ⟨vLt_irrefl, vLt_trans, vLt_total, fun _ _ _ => ⟨rfl, rfl, rfl, rfl⟩, fun i j => by simp [vLt],
    rowBefore_asymm, rowBefore_trans⟩
 
 /-- `satisfied` is the right-hand side of `selects` -/
